@@ -206,9 +206,33 @@ def shard_defaults(args):
     return acc
 
 
+def wide_requests():
+    """every quantity 1..41 on 40-cell tables (bit counts around every multiple of 8, register counts past the table)"""
+    out = []
+    R = lambda **k: out.append(dict(kind='req', **k))   # noqa: E731
+    for q in range(1, 42):
+        for a in (0, 1, 7):
+            for fc in (1, 2, 3, 4):
+                R(fc=fc, address=a, count=q)
+            for pat in (lambda i: i % 2 == 0, lambda i: True, lambda i: i % 3 == 0):
+                R(fc=15, address=a, count=q, byte_count=(q + 7) // 8, bits=[pat(i) for i in range(q)])
+            R(fc=16, address=a, count=q, byte_count=2 * q, registers=[0x5000 + 64 * a + i for i in range(q)])
+    for rq in (1, 8, 16, 40):
+        for wn in range(1, 13):
+            for ra, wa in ((0, 0), (3, 30), (30, 3)):
+                R(fc=23, read_address=ra, read_count=rq, write_address=wa, write_count=wn, write_byte_count=2 * wn,
+                  write_registers=[0x6000 + i for i in range(wn)])
+    return out
+
+
 def shard(args):
     if args[0] == 'defaults':
         return shard_defaults(args)
+    if args[0] == 'wide':
+        acc = Acc()
+        reqs = wide_requests()
+        explore_layout(acc, stores.wide_layouts()[args[1]], 1, reqs, reqs)
+        return acc
     tier, idx = args
     acc = Acc()
     lay = stores.layouts()[idx]
@@ -220,7 +244,7 @@ def shard(args):
 
 def run(tier, seed):
     n = len(stores.layouts())
-    acc = par.run_shards(shard, [(tier, i) for i in range(n)] + [('defaults',)])
+    acc = par.run_shards(shard, [(tier, i) for i in range(n)] + [('defaults',), ('wide', 0), ('wide', 1)])
     acc.n['traces_validated_against_impl'] = acc.n.get('transitions', 0)
     acc.n['evaluations'] = acc.n.get('transitions', 0)
     he = None if acc.n.get('normal_responses', 0) > 1000 else 'vacuous: too few accepted requests'
@@ -232,7 +256,7 @@ def run(tier, seed):
                     requests=len(requests(False)), requests_reduced=len(requests(True)),
                     bounds='16 layouts (sequential (start,size) (0,6) (1,6) (3,4); sparse {1,2,3,5,6}; zero-mode on/off; tables separate/shared); '
                            'request alphabet FC 1-6,15,16,22,23, addresses %r, quantities 1-3, values %r, every coil pattern of length <= 3, '
-                           'mask pairs %r^2, FC23 with overlapping ranges; histories to depth %s'
+                           'mask pairs %r^2, FC23 with overlapping ranges; histories to depth %s; plus every quantity 1..41 of FC 1-4, 15, 16 (and FC23 read 1/8/16/40 x write 1..12) on two 40-cell layouts from the initial state'
                            % (ADDR, VALS, MASKS, '2 over the full alphabet' if tier == 'quick'
                               else '2 over the full alphabet and depth 3 over the reduced alphabet')),
                 assumptions=['ref/datamodel.py transcribes the data model and the state diagrams of V1.1b3 6.1-6.17',
@@ -244,7 +268,7 @@ def replay(w):
         acc = shard_defaults(('defaults',))
         vs = [v for v in acc.violations if v['witness'] == w]
         return bool(vs), '\n'.join(v['msg'] for v in vs) or 'no violation'
-    lay = [l for l in stores.layouts() if l.name == w['layout']][0]
+    lay = [l for l in stores.layouts() + stores.wide_layouts() if l.name == w['layout']][0]
     s = lay.initial_state()
     lines, bad = [], False
     for hx in w['history']:
